@@ -111,8 +111,10 @@ class InMemoryObjectStore(BaseObjectStore):
             raise ValueError(
                 f'Name "{name}" already in {self._cim_object_type} '
                 'object store')
-        # Add with deepcopy to completely isolate the copy in the repository
-        self._data[name] = deepcopy(cim_object)
+        # Add with deepcopy to completely isolate the copy in the repository.
+        # The name is copied as well, because for instances it is a mutable
+        # CIMInstanceName object that the caller may still reference.
+        self._data[deepcopy(name)] = deepcopy(cim_object)
 
     def update(self, name, cim_object):
         assert isinstance(cim_object, self._cim_object_type)
